@@ -220,8 +220,12 @@ func (e *Engine) isMatchBoundedBacktracker(haystack []byte) bool {
 		if !e.asciiBoundedBacktracker.CanHandle(len(haystack)) {
 			return e.pikevmIsMatch(haystack)
 		}
-		// Use ASCII backtracker directly (no pooled state needed - it's independent)
-		return e.asciiBoundedBacktracker.IsMatch(haystack)
+		// Pooled per-search state: the backtracker's internal one is shared by
+		// every goroutine using the Regex.
+		state := e.getSearchState()
+		matched := e.asciiBoundedBacktracker.IsMatchWithState(haystack, state.backtracker)
+		e.putSearchState(state)
+		return matched
 	}
 
 	if !e.boundedBacktracker.CanHandle(len(haystack)) {
